@@ -1570,10 +1570,20 @@ func (fr *Frame) checkCallSiteAsserts(c *ssa.CallCommon, args []Term, preFn Term
 			for _, cl := range m[name] {
 				ctx := fr.newEvalCtx(st, fr.entry, names)
 				v, err := ctx.eval(cl.E)
+				ck := fr.key + " callsite " + name + " " + cl.Text
 				if err != nil || v.t.Sort != SBool {
-					u.bindErrors = append(u.bindErrors, fmt.Sprintf("%s callsite %s %q: %v", fr.key, name, cl.Text, err))
+					// a name of the clause is not in scope at this call of the callee (the clause is written for a later
+					// call): not applicable here; a clause that binds at no call site at all is reported at the end
+					if u.callsiteErr == nil {
+						u.callsiteErr = map[string]string{}
+					}
+					u.callsiteErr[ck] = fmt.Sprintf("%s callsite %s %q: %v", fr.key, name, cl.Text, err)
 					continue
 				}
+				if u.callsiteBound == nil {
+					u.callsiteBound = map[string]bool{}
+				}
+				u.callsiteBound[ck] = true
 				u.oblige(fr, kind, pos, fmt.Sprintf("%s: %s", name, cl.Text), st.pc, v.t, false)
 				u.assume(st.pc, v.t)
 			}
